@@ -425,6 +425,41 @@ func c03units(tier string) []mc.Unit {
 		}})
 	}
 	// Write / Read through a file
+	// widths of the LOCUS line: every locus-name length 1..40 x sequence lengths of 1..6 digits (the columns of the
+	// line are fixed in the flat-file layout; a name and a length that together outgrow them must still come back)
+	for _, L := range []int{1, 9, 10, 99, 100, 999, 1000, 9999, 10000, 99999, 100000} {
+		L := L
+		us = append(us, mc.Unit{Name: fmt.Sprintf("locus-widths/bases=%d", L), Weight: 10 + L/500, Run: func(r *mc.Recorder) {
+			memo := &c3memo{first: map[string]string{}}
+			var cnt int64
+			{
+				seq := gbSeq(L, 6)
+				for nl := 1; nl <= 40; nl++ {
+					if L >= 9999 && nl%4 != 0 && (nl < 18 || nl > 26) {
+						continue
+					}
+					name := ("NC_000913_thrLABC_operon_and_flanking_regions_x")[:nl]
+					var s poly.Sequence
+					s.Sequence = seq
+					s.Meta.Locus = poly.Locus{Name: name, SequenceLength: strconv.Itoa(L), MoleculeType: "DNA", GenbankDivision: "SYN", ModificationDate: "01-JAN-2000", Linear: nl%2 == 0, Circular: nl%2 == 1}
+					s.Meta.Definition, s.Meta.Accession, s.Meta.Version, s.Meta.Keywords = "Assembled record.", "XY000001", "XY000001.1", "."
+					s.Meta.Source, s.Meta.Organism = "synthetic construct", "synthetic construct"
+					s.Meta.Other = map[string]string{}
+					f := poly.Feature{Type: "misc_feature", Attributes: map[string]string{"note": "n"}}
+					f.SequenceLocation = poly.Location{Start: 0, End: 1}
+					s.AddFeature(&f)
+					key := fmt.Sprintf("locus name of %d characters, %d bases", nl, L)
+					c3judge(r, memo, key, "assembled record: "+key, []string{"locus-width"}, s)
+					cnt++
+				}
+			}
+			r.Eval(cnt)
+			r.AddStates(cnt)
+			r.AddTransitions(cnt)
+			r.AddNontrivial(cnt)
+			r.Bound("locus-widths", "locus names of 1..40 characters x sequence lengths with 1..6 digits")
+		}})
+	}
 	us = append(us, mc.Unit{Name: "files", Weight: 10, Run: func(r *mc.Recorder) {
 		dir, err := os.MkdirTemp("", "c03")
 		if err != nil {
